@@ -64,6 +64,42 @@ def layout():
     return [{'path': p, 'content': c} for p, c in sorted(files.items())], ['repo/.git', 'repo-b/.git', 'repo-b/.github/workflows']
 
 
+def extra_layouts():
+    """Small targeted layouts (name, files, dirs, argument sequences) run through the same multi-vs-alone comparison."""
+    out = []
+    W = '.github/workflows/'
+    # 1. a broken glob among the configured runner labels: every file reports it, however many files share the config
+    lab = lambda n, ro: ('on: push\njobs:\n  j:\n    runs-on: %s\n    steps:\n      - run: echo ${{ undefined%s }}\n' % (ro, n))
+    f = {'repo/.github/actionlint.yaml': 'self-hosted-runner:\n  labels: [lab-a, "gpu-[", "x-*", "y[a"]\nconfig-variables: [v1]\n',
+         'repo/' + W + 'x1.yml': lab('x1', 'custom-one'), 'repo/' + W + 'x2.yml': lab('x2', '[self-hosted, custom-two]'),
+         'repo/' + W + 'x3.yml': lab('x3', 'x-large'), 'repo/' + W + 'x4.yml': lab('x4', 'lab-a')}
+    x = ['repo/' + W + 'x%d.yml' % i for i in (1, 2, 3, 4)]
+    out.append(('config-broken-label-glob', f, ['repo/.git'], [x, x[::-1], [x[1], x[0]], [x[3], x[2], x[0]]]))
+    # 2. sibling repositories whose paths differ only in letter case
+    f = {'work/Deploy/.github/actionlint.yaml': 'self-hosted-runner:\n  labels: [lab-up]\nconfig-variables: [upvar]\n',
+         'work/deploy/.github/actionlint.yaml': 'self-hosted-runner:\n  labels: [lab-low]\nconfig-variables: [lowvar]\n',
+         'work/Deploy/' + W + 'u.yml': 'on: push\njobs:\n  j:\n    runs-on: lab-up\n    steps:\n      - run: echo ${{ vars.UPVAR }} ${{ vars.LOWVAR }}\n      - uses: ./.github/actions/act\n',
+         'work/deploy/' + W + 'l.yml': 'on: push\njobs:\n  j:\n    runs-on: lab-low\n    steps:\n      - run: echo ${{ vars.UPVAR }} ${{ vars.LOWVAR }}\n      - uses: ./.github/actions/act\n',
+         'work/Deploy/.github/actions/act/action.yml': ACTION,
+         'work/deploy/.github/actions/act/action.yml': ACTION.replace('must:', 'other:')}
+    u, l = 'work/Deploy/' + W + 'u.yml', 'work/deploy/' + W + 'l.yml'
+    out.append(('case-sibling-repos', f, ['work/Deploy/.git', 'work/deploy/.git'], [[u, l], [l, u]]))
+    # 3. an invalid local call (with @ref) next to a correct call of the same workflow
+    big = ''.join('      - run: echo ${{ undefinedg%d }}\n' % i for i in range(40))
+    good = ('on: push\njobs:\n  call:\n    uses: ./.github/workflows/callee.yml\n    with:\n      num: notanumber\n      extrag: 1\n'
+            '  use:\n    needs: call\n    runs-on: ubuntu-latest\n    steps:\n      - run: echo ${{ needs.call.outputs.out1 }} ${{ needs.call.outputs.nope }}\n' + big)
+    bad = 'on: push\njobs:\n  call:\n    uses: ./.github/workflows/callee.yml@main\n    with:\n      need: x\n'
+    f = {'repo/' + W + 'good.yml': good, 'repo/' + W + 'bad.yml': bad, 'repo/' + W + 'callee.yml': CALLEE,
+         'repo/.github/actionlint.yaml': CFG_A}
+    g, b, c = 'repo/' + W + 'good.yml', 'repo/' + W + 'bad.yml', 'repo/' + W + 'callee.yml'
+    out.append(('ref-call-next-to-good-call', f, ['repo/.git'], [[b, g], [g, b], [b, g, c], [c, b, g], [b, c, g], [g, c, b]]))
+    # 4. files outside any repository (no project: null caches), one of them with an invalid local call
+    f = {'loose/o1.yml': bad, 'loose/o2.yml': good, 'loose/o3.yml': lab('o3', 'ubuntu-latest')}
+    o = ['loose/o1.yml', 'loose/o2.yml', 'loose/o3.yml']
+    out.append(('no-project', f, [], [o, o[::-1], [o[0], o[2]]]))
+    return out
+
+
 def run(ck, tier):
     sd = vplib.subdir('c10')
     r = vplib.run_tlc('LinterMC', 'Linter_ok.cfg', timeout=1800)
@@ -94,6 +130,12 @@ def run(ck, tier):
     for o in orders[::7]:
         cases.append({'id': len(cases) + 1, 'name': 'reused-linter:args:' + ','.join(o), 'files': files, 'dirs': dirs,
                       'args': [FILES[x] for x in o], 'reps': 3, 'gomaxprocs': [2, 16], 'cwd': '', 'single': True, 'reuse': True})
+    n_main = len(cases)
+    for name, fs, ds, seqs in extra_layouts():
+        fl = [{'path': p_, 'content': c_} for p_, c_ in sorted(fs.items())]
+        for k, s_ in enumerate(seqs):
+            cases.append({'id': len(cases) + 1, 'name': 'layout:%s:%d' % (name, k), 'files': fl, 'dirs': ds, 'args': s_,
+                          'reps': 8 if tier == 'quick' else 40, 'gomaxprocs': [1, 2, 16, 4], 'cwd': '', 'single': True})
     vplib.write_jsonl(os.path.join(sd, 'cases.jsonl'), cases)
     vplib.run_harness(['det-run', os.path.join(sd, 'cases.jsonl'), os.path.join(sd, 'out.jsonl')], timeout=3000)
     res = vplib.read_jsonl(os.path.join(sd, 'out.jsonl'))
